@@ -106,10 +106,10 @@ Section Relative.
      body: a non-conforming supplied value => the call raises, the body has not run *)
   Theorem C03_args_guard : forall pc consumes f c bd,
     pc_good pc = true -> sig_ok f = true ->
-    c03_args_bad ctx f c = true ->
+    c03_supplied_bad ctx f c = true ->
     snd (run pc check consumes f c bd) = [] /\ exists e, fst (run pc check consumes f c bd) = Raise e.
   Proof.
-    intros pc consumes f c bd G Hsig H. unfold c03_args_bad in H.
+    intros pc consumes f c bd G Hsig H. unfold c03_supplied_bad in H.
     destruct (twin_binding f c) as [b|] eqn:Eb; [|discriminate].
     apply existsb_exists in H as [[oa v] [Hin Hbad]]. simpl in Hbad.
     destruct (bad_rejected _ _ Hbad) as [a [-> [_ Hrej]]].
@@ -122,20 +122,36 @@ Section Relative.
      function (K2); (a var-positional parameter not spelled *args makes the discipline test fail: K2) *)
   Theorem C03_args_guard_exact_partial : forall pc consumes f c bd,
     pc_good pc = true -> sig_ok f = true ->
-    c03_args_bad ctx f c = true ->
+    c03_supplied_bad ctx f c = true ->
     assert_uses_kwargs pc f c = Ok tt ->
     (is_instance_method f = true -> wargs c <> []) ->
     (forall inst, instance_of f c = Ok inst -> clazz_probe f c inst = Ok tt) ->
     forallb (fun p => match p_ann p with Some a => supported ctx a | None => true end) (f_params f) = true ->
     run pc check consumes f c bd = (Raise PTypeCheckC, []).
   Proof.
-    intros pc consumes f c bd G Hsig H Hauk Hinst Hprobe Hsup. unfold c03_args_bad in H.
+    intros pc consumes f c bd G Hsig H Hauk Hinst Hprobe Hsup. unfold c03_supplied_bad in H.
     destruct (twin_binding f c) as [b|] eqn:Eb; [|discriminate].
     apply existsb_exists in H as [[oa v] [Hin Hbad]]. simpl in Hbad.
     destruct (bad_rejected _ _ Hbad) as [a [-> [_ Hrej]]].
     eapply args_guard_exact; try eassumption.
     intros p a0 Hp Ha v0 tv e He. eapply checker_raises_ptc_only; [|exact He].
     rewrite forallb_forall in Hsup. specialize (Hsup p Hp). now rewrite Ha in Hsup.
+  Qed.
+
+  (* property setters: obj.p = x hands x to the setter positionally; it is checked all the same.  Guards: the text flag
+     says what the class definition says (K2), the receiver is called `self` *)
+  Theorem C03_setter_guard_partial : forall pc consumes f c bd p r,
+    pc_good pc = true ->
+    setter_value_bad ctx f c = true ->
+    t_setter (f_text f) = true -> is_instance_method f = true ->
+    declared f = [p] -> params_without_self f = declared f -> is_star p = false -> p_default p = None ->
+    c_recv c = [r] -> kw_get (p_name p) (c_kwargs c) = None ->
+    snd (run pc check consumes f c bd) = [] /\ exists e, fst (run pc check consumes f c bd) = Raise e.
+  Proof.
+    intros pc consumes f c bd p r G H Hts Him Hd Hpw Hstar Hdef Hr Hk. unfold setter_value_bad in H. rewrite Hd in H.
+    apply andb_true_iff in H as [_ H]. destruct (c_args c) as [|x [|y l]] eqn:Ex; try discriminate.
+    destruct (bad_rejected _ _ H) as [a [Ha [_ Hrej]]].
+    eapply setter_guard; try eassumption. congruence.
   Qed.
 
   (* C03, second sentence: a non-conforming produced value never reaches the caller *)
@@ -173,6 +189,7 @@ Section Relative.
 End Relative.
 Print Assumptions C03_args_guard.
 Print Assumptions C03_args_guard_exact_partial.
+Print Assumptions C03_setter_guard_partial.
 Print Assumptions C03_result_guard.
 Print Assumptions C03_result_guard_exact_partial.
 
@@ -180,7 +197,7 @@ Print Assumptions C03_result_guard_exact_partial.
 (* the hypotheses discharged by the C01 / C02 theorems (Proofs/CheckerTop.v via Proofs/PedanticChecker.v): `run1` is the
    call protocol over the REGENERATED pedantic_cfg with the checker model over the REGENERATED checker tables *)
 Theorem C03_args_guard_closed : forall ctx f c bd,
-  sig_ok f = true -> c03_args_bad ctx f c = true ->
+  sig_ok f = true -> c03_supplied_bad ctx f c = true ->
   snd (run1 ctx f c bd) = [] /\ exists e, fst (run1 ctx f c bd) = Raise e.
 Proof.
   intros ctx f c bd Hs H. unfold run1.
@@ -189,7 +206,7 @@ Qed.
 Print Assumptions C03_args_guard_closed.
 
 Theorem C03_args_guard_exact_closed_partial : forall ctx f c bd,
-  sig_ok f = true -> c03_args_bad ctx f c = true ->
+  sig_ok f = true -> c03_supplied_bad ctx f c = true ->
   assert_uses_kwargs Gen.Pedantic.pedantic_cfg f c = Ok tt ->
   (is_instance_method f = true -> wargs c <> []) ->
   (forall inst, instance_of f c = Ok inst -> clazz_probe f c inst = Ok tt) ->
@@ -271,6 +288,15 @@ Example C03_star_and_kwargs_checked :
   /\ c03_args_bad ctx0 f (kwcall [] [(x_, VInt 1%Z)]) = true
   /\ run1 ctx0 f (kwcall [] [(x_, VInt 1%Z)]) (returns (VInt 1%Z)) = (Raise PTypeCheckC, []).
 Proof. repeat split; reflexivity. Qed.
+
+Definition p_setter : fn :=
+  {| f_name := "p"%string; f_dotted := true; f_params := [{| p_name := self_name; p_kind := PosOrKw; p_ann := None; p_default := None |}; par 18 PosOrKw AInt None];
+     f_bound := None; f_first_arg := Some self_name; f_ret := Some (ACls CNoneType); f_coroutine := false; f_generator := false;
+     f_text := tflags false false true false 1; f_setter := true; f_recv := true |}.
+Example C03_setter_checked :
+  setter_value_bad ctx0 p_setter (poscall [k_inst] [vx] []) = true
+  /\ run1 ctx0 p_setter (poscall [k_inst] [vx] []) (returns VNone) = (Raise PTypeCheckC, []).
+Proof. split; reflexivity. Qed.
 
 Example C03_result_checked :
   c03_result_bad ctx0 f_plain vx = true
